@@ -491,8 +491,15 @@ Section ConverterProofs.
   Qed.
   Lemma conv_expire_total a : conv_expire now_s now_ms a <> Panic.
   Proof.
-    unfold conv_expire. destruct (alen a <? 3) eqn:H; [discriminate|]. apply N.ltb_ge in H.
-    ok_arg a 1. ok_arg a 2. destruct (parse_int w0); [|discriminate]. ok_arg a 0. discriminate.
+    unfold conv_expire. cbv zeta.
+    destruct ((alen a <? 3) && negb ((alen a =? 2) && match arg a 0 with Ok n0 => is (upper n0) "PERSIST" | _ => false end)) eqn:H; [discriminate|].
+    assert (H2 : 2 <= alen a).
+    { apply andb_false_iff in H. destruct H as [H|H]; [apply N.ltb_ge in H; lia|].
+      apply negb_false_iff in H. apply andb_prop in H. destruct H as [H _]. apply N.eqb_eq in H. lia. }
+    clear H. ok_arg a 1.
+    destruct (2 <? alen a) eqn:H3.
+    - apply N.ltb_lt in H3. ok_arg a 2. destruct (parse_int w0); [|discriminate]. ok_arg a 0. discriminate.
+    - cbn [bind]. destruct (parse_int [48]); [|discriminate]. ok_arg a 0. discriminate.
   Qed.
 
   (* ConvertTextKeyOperateValueCommand for every argument list the handler can be called with: the text protocol
